@@ -288,7 +288,7 @@ func TestC33_Expiry(t *testing.T) {
 	})
 }
 
-var wManaged = map[string]int{"txn": 12, "begin": 5, "set": 4, "del": 1, "get": 8, "iter": 5, "commit": 5, "discard": 1, "flush": 3, "compact": 5, "discardts": 4, "fill": 2, "reopen": 1}
+var wManaged = map[string]int{"txn": 12, "begin": 5, "set": 4, "del": 1, "get": 8, "iter": 5, "commit": 5, "discard": 1, "flush": 8, "compact": 9, "discardts": 5, "fill": 3, "reopen": 1, "l0shape": 2, "deepen": 1}
 
 func TestC36_Managed(t *testing.T) {
 	runProp(t, propDef{id: "C36", part: "managed",
